@@ -49,7 +49,7 @@ SPECS = {
         'assumptions': _EDIT_ASSUME + ['only vetted families are asserted against the list model (see DESIGN 2.4); emptying a Set, starred/keyword interleavings and virtual fields with ordering rules are outside the vetted class'],
     },
     'C04': {
-        'engine': 'editsim', 'mod': 'sim.engines', 'quick': 32000, 'thorough': 300000, 'level': 'exploration',
+        'engine': 'editsim', 'mod': 'sim.engines', 'quick': 36000, 'thorough': 360000, 'level': 'exploration',
         'rule': 'one evaluation = one seeded run on a UNIQUE-TOKEN program (every NAME/NUMBER/STRING/COMMENT token text is '
                 'unique, also in new code) with dense comments/blank lines and a history of 1-8 structured edits with '
                 'trivia/pep8space/elif_/docstr/pars options; after each successful edit: no token outside the allowed set '
